@@ -138,3 +138,14 @@ package gcetcbendorsement
 //@   requires opts != nil
 //@   modifies *
 //@   sweep[C07] nil
+
+// C19 (bytes fields are rendered as their exact bytes in the raw / non-terminal auto form): InspectMask renders with the
+// configured form and writer, and the only field with a renderer of its own is the timestamp - every bytes field goes
+// through the generic bytes rendering (WriteBytesForm), none is given a private presentation.
+//@ func InspectMask
+//@   modifies *
+//@   atcall Mask requires[C19] p0 != nil && p0.PathRenderer != nil && forall(k, string, has(p0.PathRenderer, k) ==> k == "timestamp")
+// (Mask - parsing the mask's paths and walking the message - is represented by this assumed frame here; its parts are
+// under their own contracts: the scanner, index literals, PathValues, WriteBytesForm.)
+//@ func (*MaskOptions).Mask trusted
+//@   modifies *
